@@ -73,7 +73,7 @@ def records_check(run, binary, driver, module, env=None, tier=None, sub=None, ar
     return meta
 
 
-def traces_check(run, binary, driver, module, env=None, tier=None, sub=None, args=(), cfg=None, fileskey="traces", nd=False, timeout=1800):
+def traces_check(run, binary, driver, module, env=None, tier=None, sub=None, args=(), cfg=None, fileskey="traces", nd=False, timeout=1800, sched=False):
     """Drive, validate traces with TLC against a trace spec, confirm each rejected trace alone."""
     e = dict(env or {})
     if getattr(run, "only", None):
@@ -92,7 +92,7 @@ def traces_check(run, binary, driver, module, env=None, tier=None, sub=None, arg
         seen.add(key)
 
         def recheck(key=key, lines=lines):
-            if nd:
+            if nd or sched:
                 # schedule-dependent behaviour: the recorded trace is itself behaviour of the real code.
                 # It is validated again on its own (a deterministic verdict on the same evidence); the
                 # scenario is also re-executed a few times to tell whether the schedule recurs.
@@ -481,6 +481,14 @@ def c19(run):
             run.candidate("race-build/%s/%s" % (sub, key), "session under -race differs from its solo run", lambda line=line: (True, dict(note="record rejected in the -race build", record=json.loads(line))))
     race_run("c19race", {})
     colds = 3 if run.tier == "quick" else 25
+    # the connection as a system: WsConn (client, echo server, two channels) model-checked, its planted
+    # defects found, and the frame events of real concurrent connections replayed into it
+    vlib.tlc_model(run, "WsConn", workers=8)
+    expect_counterexample(run, "WsConn", "WsConn_bug_closecode", "Invariant CloseCorrect is violated", workers=4)
+    expect_counterexample(run, "WsConn", "WsConn_bug_droppong", "Invariant Complete is violated", workers=4)
+    run.assumptions += ["WsConn: the connection-level model (most general client, echo server built from Reader + ControlFrameHandler + pooled Writer, FIFO channels); real connections are linearised by the single lock of the harness' duplex, one event per frame and side, and every concurrent connection must be a behaviour of the model (EchoCorrect, PongCorrect, CloseCorrect, NothingAfterClose, Complete evaluated after every step)"]
+    traces_check(run, b, "conn", "TraceWsConn", sched=True)
+    traces_check(run, rb, "conn", "TraceWsConn", sub="conn-race", sched=True, env={"GORACE": "exitcode=0 log_path=%s" % logp})
     for i in range(colds):
         race_run("c19cold-race-%d" % i, {"C19_COLD": "1"})
         d, meta = run.drive(b, "c19", sub="c19cold-%d" % i, env={"C19_COLD": "1"})
